@@ -283,4 +283,128 @@ theorem removeEntry_write_set (c : Cfg) (v pSect : Nat) (name : Bytes) (s : St)
               · rw [if_neg hrc3]
                 obtain ⟨link, hl, hst, hw3⟩ := hgood (by simpa using hrc3)
                 exact tail link s3 hl hst hw3
+
+/-- at most one block is written, and it is addressed to sector `sec` of volume `v` -/
+def OneWriteTo (c : Cfg) (v : Nat) (W : List Ev) : Prop :=
+  W = [] ∨ ∃ n data st, W = [Ev.wr (some v) (vsect c v n) 512 data st]
+
+theorem writeDirBlock_W {F : Fault → Prop} (c : Cfg) (v n : Nat) (d : Blk) (s0 s : St) (hq : Quiet s0 s)
+    (Q : RC × Blk → St → Prop)
+    (h : ∀ r s', (∃ W, writesOf s'.trace = W ++ writesOf s0.trace ∧ OneWriteTo c v W) → Q r s') :
+    Post F c (writeDirBlock v n d) s Q := by
+  unfold writeDirBlock
+  apply Post.bind; apply Post.volWriteW
+  intro rc s' _ _ hw
+  apply Post.pure
+  apply h
+  rcases hw with ⟨hw, _⟩ | ⟨st, hw, _⟩
+  · exact ⟨[], by rw [hw, hq.2.2]; rfl, Or.inl rfl⟩
+  · exact ⟨[_], by rw [hw, hq.2.2]; rfl, Or.inr ⟨n, _, st, rfl⟩⟩
+
+theorem writeFileHdrBlock_W {F : Fault → Prop} (c : Cfg) (v n : Nat) (d : Blk) (s0 s : St) (hq : Quiet s0 s)
+    (Q : RC × Blk → St → Prop)
+    (h : ∀ r s', (∃ W, writesOf s'.trace = W ++ writesOf s0.trace ∧ OneWriteTo c v W) → Q r s') :
+    Post F c (writeFileHdrBlock v n d) s Q := by
+  unfold writeFileHdrBlock
+  apply Post.bind; apply Post.volWriteW
+  intro rc s' _ _ hw
+  apply Post.pure
+  apply h
+  rcases hw with ⟨hw, _⟩ | ⟨st, hw, _⟩
+  · exact ⟨[], by rw [hw, hq.2.2]; rfl, Or.inl rfl⟩
+  · exact ⟨[_], by rw [hw, hq.2.2]; rfl, Or.inr ⟨n, _, st, rfl⟩⟩
+
+/-- **`adfSetEntryAccess` writes at most one block** (volumes without directory cache), for every disk content and fault
+    schedule: no bitmap, no directory, no other entry is touched -/
+theorem setEntryAccess_write_set (c : Cfg) (v parSect : Nat) (name : Bytes) (acc : Nat) (s : St)
+    (hnc : isDIRCACHE (c.vol v).dosType = false) :
+    Post AnyFault c (setEntryAccess v parSect name acc) s (fun _ s' =>
+      ∃ W, writesOf s'.trace = W ++ writesOf s.trace ∧ OneWriteTo c v W) := by
+  unfold setEntryAccess
+  apply Post.bind; apply Post.getVolCfg
+  apply Post.bind; apply readEntryBlock_quiet c v parSect s s (Quiet.rfl' s)
+  rintro ⟨rc, parent⟩ s1 hq1
+  simp only
+  split
+  · exact Post.pure _ _ _ _ ⟨[], by rw [hq1.2.2]; rfl, Or.inl rfl⟩
+  · apply Post.bind
+    refine Post.mono _ _ _ _ _ (nameToEntryBlk_quiet c v parent name s s1 hq1) ?_
+    rintro ⟨ns, entry, upd⟩ s2 hq2
+    cases ns with
+    | none => exact Post.pure _ _ _ _ ⟨[], by rw [hq2.2.2]; rfl, Or.inl rfl⟩
+    | some nSect =>
+      dsimp only
+      have fin : ∀ (r : RC × Blk) (s3 : St), (∃ W, writesOf s3.trace = W ++ writesOf s.trace ∧ OneWriteTo c v W) →
+          Post AnyFault c (if r.fst ≠ rcOK then pure r.fst
+            else if isDIRCACHE (c.vol v).dosType = true then updateCache v parent r.snd false else pure r.fst) s3
+            (fun _ s' => ∃ W, writesOf s'.trace = W ++ writesOf s.trace ∧ OneWriteTo c v W) := by
+        intro r s3 hW
+        simp only [hnc, Bool.false_eq_true, if_false]
+        split <;> exact Post.pure _ _ _ _ hW
+      by_cases hd : (entry.setW F_access acc).secType = ST_DIR
+      · rw [if_pos hd]
+        apply Post.bind; apply writeDirBlock_W c v nSect _ s s2 hq2
+        intro r s' h; exact fin r s' h
+      · rw [if_neg hd]
+        by_cases hf : (entry.setW F_access acc).secType = ST_FILE
+        · rw [if_pos hf]
+          apply Post.bind; apply writeFileHdrBlock_W c v nSect _ s s2 hq2
+          intro r s' h; exact fin r s' h
+        · rw [if_neg hf]
+          apply Post.bind; apply Post.pure
+          exact fin _ s2 ⟨[], by rw [hq2.2.2]; rfl, Or.inl rfl⟩
+
+theorem hasFreeBlocks_quiet (c : Cfg) (v n : Nat) (s0 s : St) (hq : Quiet s0 s) (Q : Bool → St → Prop) (h : ∀ b s', Quiet s0 s' → Q b s') :
+    Post AnyFault c (hasFreeBlocks v n) s Q := by
+  unfold hasFreeBlocks
+  split
+  · exact Post.pure _ _ _ _ (h _ _ hq)
+  · apply Post.bind; apply Post.getVolCfg
+    apply Post.bind; apply Post.getVolMem
+    simp only
+    split
+    · apply Post.bind; exact Post.fault _ _ _ _ trivial
+    · exact Post.pure _ _ _ _ (h _ _ hq)
+
+/-- **`adfSetEntryComment` writes at most one block** (volumes without directory cache) -/
+theorem setEntryComment_write_set (c : Cfg) (v parSect : Nat) (name cmt : Bytes) (s : St)
+    (hnc : isDIRCACHE (c.vol v).dosType = false) :
+    Post AnyFault c (setEntryComment v parSect name cmt) s (fun _ s' =>
+      ∃ W, writesOf s'.trace = W ++ writesOf s.trace ∧ OneWriteTo c v W) := by
+  unfold setEntryComment
+  apply Post.bind; apply Post.getVolCfg
+  apply Post.bind; apply readEntryBlock_quiet c v parSect s s (Quiet.rfl' s)
+  rintro ⟨rc, parent⟩ s1 hq1
+  simp only
+  split
+  · exact Post.pure _ _ _ _ ⟨[], by rw [hq1.2.2]; rfl, Or.inl rfl⟩
+  · apply Post.bind
+    refine Post.mono _ _ _ _ _ (nameToEntryBlk_quiet c v parent name s s1 hq1) ?_
+    rintro ⟨ns, entry, upd⟩ s2 hq2
+    cases ns with
+    | none => exact Post.pure _ _ _ _ ⟨[], by rw [hq2.2.2]; rfl, Or.inl rfl⟩
+    | some nSect =>
+      dsimp only
+      apply Post.bind; apply hasFreeBlocks_quiet c v 1 s s2 hq2
+      intro hfb s2' hq2'
+      simp only [hnc, Bool.false_eq_true, false_and, if_false]
+      generalize hE : (entry.setByte O_commLen (List.take 79 cmt).length).setBytes O_comment (List.take 79 cmt) = e2
+      have fin : ∀ (r : RC × Blk) (s3 : St), (∃ W, writesOf s3.trace = W ++ writesOf s.trace ∧ OneWriteTo c v W) →
+          Post AnyFault c (if r.fst ≠ rcOK then pure r.fst else pure r.fst) s3
+            (fun _ s' => ∃ W, writesOf s'.trace = W ++ writesOf s.trace ∧ OneWriteTo c v W) := by
+        intro r s3 hW
+        split <;> exact Post.pure _ _ _ _ hW
+      by_cases hd : e2.secType = ST_DIR
+      · rw [if_pos hd]
+        apply Post.bind; apply writeDirBlock_W c v nSect _ s s2' hq2'
+        intro r s' h; exact fin r s' h
+      · rw [if_neg hd]
+        by_cases hf : e2.secType = ST_FILE
+        · rw [if_pos hf]
+          apply Post.bind; apply writeFileHdrBlock_W c v nSect _ s s2' hq2'
+          intro r s' h; exact fin r s' h
+        · rw [if_neg hf]
+          apply Post.bind; apply Post.pure
+          exact fin _ s2' ⟨[], by rw [hq2'.2.2]; rfl, Or.inl rfl⟩
+
 end Adf
